@@ -570,18 +570,30 @@ pub fn promo_family(out: &mut Vec<Crafted>) {
             for cap_mask in 0..4u32 {
                 for block in [false, true] {
                     for oksq in 0..64u8 {
-                        for mk in [sq(0, me.home_rank()), sq(7, r7), sq(f, (r7 - 3 * me.fwd()).clamp(0, 7))] {
+                        // own king: a corner, next to the pawn, behind it on the file, and on the four
+                        // diagonal squares behind it (pawn pinned along a capture diagonal)
+                        let mut mks = vec![sq(0, me.home_rank()), sq(7, r7), sq(f, (r7 - 3 * me.fwd()).clamp(0, 7))];
+                        if oksq % 4 == 0 {
+                            for (dx, k) in [(-1, 1), (1, 1), (-1, 2), (1, 2)] {
+                                let (x, y) = (f + dx * k, r7 - me.fwd() * k);
+                                if on_board(x, y) {
+                                    mks.push(sq(x, y));
+                                }
+                            }
+                        }
+                        for mk in mks {
                             let mut p = Position::empty();
                             p.turn = me;
                             p.board[sq(f, r7) as usize] = Some((me, Kind::P));
                             if block {
                                 p.board[sq(f, r8) as usize] = Some((opp, Kind::N));
                             }
+                            let kinds = [Kind::R, Kind::B, Kind::Q];
                             if cap_mask & 1 != 0 && f > 0 {
-                                p.board[sq(f - 1, r8) as usize] = Some((opp, Kind::R));
+                                p.board[sq(f - 1, r8) as usize] = Some((opp, kinds[(oksq as usize / 4) % 3]));
                             }
                             if cap_mask & 2 != 0 && f < 7 {
-                                p.board[sq(f + 1, r8) as usize] = Some((opp, Kind::B));
+                                p.board[sq(f + 1, r8) as usize] = Some((opp, kinds[(oksq as usize / 4 + 1) % 3]));
                             }
                             if p.board[oksq as usize].is_some() || p.board[mk as usize].is_some() || mk == oksq {
                                 continue;
@@ -660,6 +672,39 @@ pub const CLASSIC_MATES: &[&str] = &[
     "5rk1/2q2p1p/8/8/6N1/8/1B6/K5R1 w - - 0 1",
     "6k1/5ppp/8/8/8/8/8/R5K1 w - - 0 1",
 ];
+
+/// A position one ply earlier: the side NOT to move in `p` un-makes a quiet king step, so that `p`
+/// is reached after one legal move.  Used to put a special move (promotion, e.p., castling) at ply 2
+/// of a search instead of at the root.
+pub fn predecessor(rng: &mut Rng, p: &Position) -> Option<(Position, Mv)> {
+    let mover = p.turn.flip();
+    let k = p.king_sq(mover)?;
+    let mut cands: Vec<Sq> = Vec::new();
+    for (df, dr) in [(1, 0), (1, 1), (0, 1), (-1, 1), (-1, 0), (-1, -1), (0, -1), (1, -1)] {
+        let (f, r) = (file_of(k) + df, rank_of(k) + dr);
+        if on_board(f, r) && p.board[sq(f, r) as usize].is_none() {
+            cands.push(sq(f, r));
+        }
+    }
+    rng.shuffle(&mut cands);
+    for s in cands {
+        let mut q = p.clone();
+        q.board[k as usize] = None;
+        q.board[s as usize] = Some((mover, Kind::K));
+        q.turn = mover;
+        q.ep = None;
+        q.half = p.half.saturating_sub(1);
+        if mover == Col::B {
+            q.full = p.full.saturating_sub(1);
+        }
+        // the un-moved king must not have had castling rights it could not have lost
+        let m = Mv::new(s, k);
+        if q.chess_root_ok().is_ok() && q.is_legal(m) && q.apply(m).identity() == p.identity() {
+            return Some((q, m));
+        }
+    }
+    None
+}
 
 /// Greedy randomized "mate maker": given a valid position `p` and a legal move `m` that gives check,
 /// add pieces of the mover's colour (or remove non-king defenders) until `m` checkmates, keeping the
